@@ -63,6 +63,8 @@ type Plan struct {
 	Steps      []string    `json:"steps,omitempty"` // replay: labels to take (lenient)
 	MaxSteps   int         `json:"max_steps"`
 	ConvFail   bool        `json:"conv_fail,omitempty"`   // converter transient failures
+	MergeFail  bool        `json:"merge_fail,omitempty"`  // disk error: creating the merged index file fails (every merge)
+	ImportFail int         `json:"import_fail,omitempty"` // disk error: the first n index file creations of imports fail
 	Restarts   []int       `json:"restarts,omitempty"`    // clean restart after these step numbers
 	CrashEvery int         `json:"crash_every,omitempty"` // C12: snapshot at every n-th changed I/O point (1 = all)
 	CrashMax   int         `json:"crash_max,omitempty"`
@@ -196,6 +198,12 @@ func Gen(prop, tier string, seed, run uint64) Plan {
 	}
 	if prop == "C16" || prop == "C09" || prop == "C20" {
 		p.ConvFail = useConv && r.IntN(3) == 0
+	}
+	if prop == "C09" || prop == "C13" {
+		p.MergeFail = r.IntN(5) == 0
+		if r.IntN(6) == 0 {
+			p.ImportFail = 1 + r.IntN(2)
+		}
 	}
 	p.Listener = prop == "C20"
 	if prop == "C20" {
@@ -423,6 +431,9 @@ func Gen(prop, tier string, seed, run uint64) Plan {
 	}
 	for _, o := range viewOps {
 		add(o)
+	}
+	if prop == "C13" && r.IntN(3) == 0 {
+		p.Restarts = []int{8 + r.IntN(40)}
 	}
 	if prop == "C12" {
 		p.CrashEvery = 1
